@@ -24,6 +24,7 @@ c.variants = [
     ("no-name", {"obj": DictT(required={"RFC4122_UUID": DictT(required={"namespace": Str()})})}),
     ("other-key", {"obj": DictT(required={"something": Str()})}),
 ]
+c.callers_inline = True  # probed with arbitrary (non-dict) descriptions by SuitUnion.from_obj; callers execute the body
 c.let("u", "obj['RFC4122_UUID'] if 'RFC4122_UUID' in obj else None")
 c.returns("class_id_from_namespace_and_name",
           "not (isinstance(u, dict) and 'namespace' in u) or result.SuitUUID == class_id(u['namespace'], u['name'])")
